@@ -82,7 +82,7 @@ def do_build(c):
         fds.append(fd)
     try:
         opts = Options.build(c.get("opt", ""))
-        package = os.path.commonprefix([p.package for p in fds if p.name in c["to_generate"]]).rstrip(".")
+        package = ".".join(os.path.commonprefix([p.package.split(".") for p in fds if p.name in c["to_generate"]]))
         a = api.API.build(fds, opts=opts, package=package)
     except ValueError as e:
         m = str(e)
